@@ -117,6 +117,12 @@ func (h *H) teardown() {
 	for _, p := range h.W.Procs {
 		p.Crashed = true
 	}
+	// detached goroutines (optimisation syncer, kill loop) may be inside the latency sleep of a
+	// failed call: let virtual time pass until they have unwound
+	for i := 0; i < 6; i++ {
+		h.W.Settle()
+		h.W.Advance(2 * time.Second)
+	}
 	h.W.Settle()
 	vsignal.ResetAll()
 	sim.Cur = nil
